@@ -1293,6 +1293,30 @@ def probes(rng, tier):
     _probe(out, 'vectorize-int-first-result-truncates',
            'space.element of a vectorize-wrapped callable whose first grid value is a Python int', snip)
 
+    # ---- 6e. calling conventions by input shape against the documented table
+    for d in (1, 2, 3):
+        snip = REF + (
+            'd = %d\ncv = [np.array([0.0, 1.0, 2.0])] * d\nf = np.arange(3.0 ** d).reshape((3,) * d)\n'
+            'def table(shape):\n'
+            '    # documented: d = 1: () scalar, (n,) and (1, n) arrays; d > 1: (d,) scalar, (d, n) array; else ValueError\n'
+            '    if d == 1:\n'
+            '        return () if shape == () else ((shape[-1],) if len(shape) == 1 or (len(shape) == 2 and shape[0] == 1) else None)\n'
+            '    if shape == (d,): return ()\n'
+            '    return (shape[1],) if len(shape) == 2 and shape[0] == d else None\n'
+            'def observed_shape(itp, shape):\n'
+            '    try:\n        r = itp(np.zeros(shape))\n    except ValueError:\n        return None\n'
+            '    return np.shape(r)\n'
+            'sizes = [0, 1, 2, 3, 4]\n'
+            'shapes = [()] + [(a,) for a in sizes] + [(a, b) for a in sizes for b in sizes] + [(d, 2, 2), (1, 1, 1)]\n'
+            'bad = [(name, sh, observed_shape(itp, sh), table(sh)) for name, itp in\n'
+            '       (("nearest", nearest_interpolator(f, cv)), ("linear", linear_interpolator(f, cv)),\n'
+            '        ("per_axis", per_axis_interpolator(f, cv, ["linear", "nearest", "linear"][:d])))\n'
+            '       for sh in shapes if observed_shape(itp, sh) != table(sh)]\n'
+            'observed = bad; expected = []\nok = not bad\n' % d)
+        _probe(out, 'conventions-by-shape-d%d' % d,
+               'interpolators on a %d-d grid accept exactly the documented input shapes and return a scalar / one value '
+               'per point' % d, snip)
+
     # ---- 7. vector-valued callables through sampling_function (shaped out_dtype)
     for form, body in (('tuple-mixed', '(x[0] + 0.0 * x[1], 2.0, x[0] * x[1])'),
                        ('tuple-equal-partial', '(x[1], 2.0 * x[1], x[1] + 1.0)')):
